@@ -17,9 +17,9 @@ import (
 // OutSpec declares an out-port and its path pattern (SetOut syntax).
 type OutSpec struct {
 	PhSuffix string `json:"ph_suffix,omitempty"` // the command refers to the output as {o:NAME|%SUFFIX}SUFFIX
-	Name    string `json:"name"`
-	Pattern string `json:"pattern"`
-	Stream  bool   `json:"stream,omitempty"`
+	Name     string `json:"name"`
+	Pattern  string `json:"pattern"`
+	Stream   bool   `json:"stream,omitempty"`
 }
 
 // ProcSpec is one process of a scenario.
@@ -32,33 +32,34 @@ type OutSpec struct {
 //	kind "substream" : components.StreamToSubStream
 //	kind "portless"  : NewProc without any port (body logs start/end only)
 type ProcSpec struct {
-	Name    string              `json:"name"`
-	Kind    string              `json:"kind"`
-	Ins     []string            `json:"ins,omitempty"`
-	Outs    []OutSpec           `json:"outs,omitempty"`
-	Params  []string            `json:"params,omitempty"`
-	FromStr map[string][]string `json:"fromstr,omitempty"`
-	Items   []string            `json:"items,omitempty"`
-	Cores   int                 `json:"cores,omitempty"`
-	TagKey  string              `json:"tagkey,omitempty"`
-	Join    map[string]string   `json:"join,omitempty"` // in-port -> separator ({i:x|join:SEP})
-	Barrier string              `json:"barrier,omitempty"`
-	NoRead  bool                `json:"noread,omitempty"` // body does not read its inputs
-	WriteIdiom bool             `json:"writeidiom,omitempty"`
-	JoinSep    string           `json:"joinsep,omitempty"` // kind "joiner": {i:x|join:SEP}
-	JoinMod    string           `json:"joinmod,omitempty"` // kind "joiner": extra modifier (basename, %.txt)
-	OutsNotInCmd bool           `json:"outs_not_in_cmd,omitempty"` // out-ports declared by SetOut only, absent from the command pattern
-	BarrierOnly []string        `json:"barrier_only,omitempty"` // only tasks whose key contains one of these take part in the barrier
-	FromStrLate bool            `json:"fromstr_late,omitempty"` // apply FromStr after the edges
-	Prepend    string           `json:"prepend,omitempty"` // Process.Prepend (a launcher put in front of the command)
-	JoinHdr    bool             `json:"joinhdr,omitempty"` // kind "joiner": a further, ordinary in-port hdr
-	JoinSep2   string           `json:"joinsep2,omitempty"` // kind "joiner": separator of a second joined in-port y
-	CmdSuffix  string           `json:"cmdsuffix,omitempty"`
-	ParamsNotInCmd bool         `json:"params_not_in_cmd,omitempty"` // parameter ports are created with InParam(), used in SetOut only
-	BarrierEnd []string         `json:"barrier_end,omitempty"`       // members whose key contains one of these wait at the END of their body instead of its start
-	ZeroCores  bool             `json:"zero_cores,omitempty"`        // CoresPerTask = 0: its tasks take no slot
-	AppendOut  bool             `json:"appendout,omitempty"`         // the command APPENDS to its output in two steps (echo a >> f; echo b >> f) instead of truncating it
-	DirOut     bool             `json:"dirout,omitempty"`            // the out-port "out" is a DIRECTORY holding two files
+	Name           string              `json:"name"`
+	Kind           string              `json:"kind"`
+	Ins            []string            `json:"ins,omitempty"`
+	Outs           []OutSpec           `json:"outs,omitempty"`
+	Params         []string            `json:"params,omitempty"`
+	FromStr        map[string][]string `json:"fromstr,omitempty"`
+	Items          []string            `json:"items,omitempty"`
+	Cores          int                 `json:"cores,omitempty"`
+	TagKey         string              `json:"tagkey,omitempty"`
+	EmptyTag       string              `json:"emptytag,omitempty"` // tagger: a second tag of this name with the EMPTY value (an optional field that is empty for this file)
+	Join           map[string]string   `json:"join,omitempty"`     // in-port -> separator ({i:x|join:SEP})
+	Barrier        string              `json:"barrier,omitempty"`
+	NoRead         bool                `json:"noread,omitempty"` // body does not read its inputs
+	WriteIdiom     bool                `json:"writeidiom,omitempty"`
+	JoinSep        string              `json:"joinsep,omitempty"`         // kind "joiner": {i:x|join:SEP}
+	JoinMod        string              `json:"joinmod,omitempty"`         // kind "joiner": extra modifier (basename, %.txt)
+	OutsNotInCmd   bool                `json:"outs_not_in_cmd,omitempty"` // out-ports declared by SetOut only, absent from the command pattern
+	BarrierOnly    []string            `json:"barrier_only,omitempty"`    // only tasks whose key contains one of these take part in the barrier
+	FromStrLate    bool                `json:"fromstr_late,omitempty"`    // apply FromStr after the edges
+	Prepend        string              `json:"prepend,omitempty"`         // Process.Prepend (a launcher put in front of the command)
+	JoinHdr        bool                `json:"joinhdr,omitempty"`         // kind "joiner": a further, ordinary in-port hdr
+	JoinSep2       string              `json:"joinsep2,omitempty"`        // kind "joiner": separator of a second joined in-port y
+	CmdSuffix      string              `json:"cmdsuffix,omitempty"`
+	ParamsNotInCmd bool                `json:"params_not_in_cmd,omitempty"` // parameter ports are created with InParam(), used in SetOut only
+	BarrierEnd     []string            `json:"barrier_end,omitempty"`       // members whose key contains one of these wait at the END of their body instead of its start
+	ZeroCores      bool                `json:"zero_cores,omitempty"`        // CoresPerTask = 0: its tasks take no slot
+	AppendOut      bool                `json:"appendout,omitempty"`         // the command APPENDS to its output in two steps (echo a >> f; echo b >> f) instead of truncating it
+	DirOut         bool                `json:"dirout,omitempty"`            // the out-port "out" is a DIRECTORY holding two files
 }
 
 type Edge struct {
@@ -70,21 +71,21 @@ type Edge struct {
 }
 
 type WSpec struct {
-	Name     string     `json:"name"`
-	Procs    []ProcSpec `json:"procs"`
-	Edges    []Edge     `json:"edges"`
-	MaxTasks int        `json:"maxtasks"`
-	Buf      int        `json:"buf"`
-	RunTo    []string   `json:"runto,omitempty"`
-	RunToHow string     `json:"runtohow,omitempty"` // "name" | "regex" | "procs"
-	Direct   string     `json:"direct,omitempty"`   // narrow-seam driver instead of a workflow (direct.go)
-	MkDirs   []string   `json:"mkdirs,omitempty"` // directories created before the run
-	UndoEdges []Edge           `json:"undo_edges,omitempty"` // file edges that are connected and then taken apart again (public Disconnect on both ports)
-	PreFiles map[string]string `json:"prefiles,omitempty"` // other regular files present before the run
-	Symlinks map[string]string `json:"symlinks,omitempty"` // symbolic links (name -> target) present before the run
+	Name          string            `json:"name"`
+	Procs         []ProcSpec        `json:"procs"`
+	Edges         []Edge            `json:"edges"`
+	MaxTasks      int               `json:"maxtasks"`
+	Buf           int               `json:"buf"`
+	RunTo         []string          `json:"runto,omitempty"`
+	RunToHow      string            `json:"runtohow,omitempty"`       // "name" | "regex" | "procs"
+	Direct        string            `json:"direct,omitempty"`         // narrow-seam driver instead of a workflow (direct.go)
+	MkDirs        []string          `json:"mkdirs,omitempty"`         // directories created before the run
+	UndoEdges     []Edge            `json:"undo_edges,omitempty"`     // file edges that are connected and then taken apart again (public Disconnect on both ports)
+	PreFiles      map[string]string `json:"prefiles,omitempty"`       // other regular files present before the run
+	Symlinks      map[string]string `json:"symlinks,omitempty"`       // symbolic links (name -> target) present before the run
 	PartialUnits  []string          `json:"partial_units,omitempty"`  // C02 histories: also pre-create only these out-ports of a multi-output task
 	SourceContent map[string]string `json:"source_content,omitempty"` // source files whose content is not their own path
-	Sources  []string   `json:"-"`                  // files created before the run (content = path)
+	Sources       []string          `json:"-"`                        // files created before the run (content = path)
 }
 
 func (w *WSpec) proc(name string) *ProcSpec {
@@ -262,9 +263,13 @@ func (w *WSpec) build(env *Env) *built {
 		case "psrc":
 			b.procs[ps.Name] = components.NewParamSource(wf, ps.Name, ps.Items...)
 		case "tagger":
-			key := ps.TagKey
+			key, empty := ps.TagKey, ps.EmptyTag
 			b.procs[ps.Name] = components.NewMapToTags(wf, ps.Name, func(ip *sp.FileIP) map[string]string {
-				return map[string]string{key: filepath.Base(ip.Path())}
+				m := map[string]string{key: filepath.Base(ip.Path())}
+				if empty != "" {
+					m[empty] = ""
+				}
+				return m
 			})
 		case "substream":
 			b.procs[ps.Name] = components.NewStreamToSubStream(wf, ps.Name)
@@ -507,14 +512,14 @@ type RefTask struct {
 
 // Ref is the sequential reference evaluation of a spec.
 type Ref struct {
-	Tasks   []*RefTask
-	ByKey   map[string]*RefTask
-	Files   map[string]string   // final path -> content (sources included)
-	Emit    map[string][]string // "proc.port" -> emitted paths in order (single-upstream chains only)
-	Ran     map[string]bool     // processes that run (RunTo closure)
-	OrderOK map[string]bool     // "proc.port" has a deterministic emission order
-	DirOuts map[string][]string // output paths that are directories -> the files they hold
-	CompFiles map[string]string // files finalized by a file-writing component (FileSplitter parts): path -> complete content
+	Tasks     []*RefTask
+	ByKey     map[string]*RefTask
+	Files     map[string]string   // final path -> content (sources included)
+	Emit      map[string][]string // "proc.port" -> emitted paths in order (single-upstream chains only)
+	Ran       map[string]bool     // processes that run (RunTo closure)
+	OrderOK   map[string]bool     // "proc.port" has a deterministic emission order
+	DirOuts   map[string][]string // output paths that are directories -> the files they hold
+	CompFiles map[string]string   // files finalized by a file-writing component (FileSplitter parts): path -> complete content
 }
 
 // refTags: tags carried by a path in the reference evaluation under way (a tagger puts them on the paths it
@@ -694,6 +699,9 @@ func (w *WSpec) referencePre(pre map[string]string) *Ref {
 						nt[k] = v
 					}
 					nt[p.TagKey] = filepath.Base(path)
+					if p.EmptyTag != "" {
+						nt[p.EmptyTag] = ""
+					}
 					refTags[path] = nt
 				}
 			case "splitter":
